@@ -279,6 +279,9 @@ func c16matrix(c *h.Ctx, r *h.Rand) {
 				if zi%2 == 1 {
 					signer.SetNonceSource(&c16nonce{}) // the ACME use: nonce in the protected header, JWK embedded
 				}
+				if (zi+si)%3 == 2 {
+					signer.SetEmbedJwk(false) // only the key id goes into the header; verification needs the key all the same
+				}
 				obj, err := signer.Sign(payload)
 				if !c.Hold(err == nil, "C16_roundtrip.sign", id, fmt.Sprint(err), "nil") {
 					continue
